@@ -44,6 +44,13 @@ Definition encode_with (c : codec) (s : str) : option (list N) :=
 
 Record codecs := { c_pyfile : codec; c_cdef : codec; c_csrc : codec; c_output : codec }.
 
+(* how an output branch of write_c_source hands the generated text over: in one write of the whole text, or in
+   some other way (line by line, print, ...) that the model does not describe.  Also a REGENERATED fact (Gen.v
+   `the_writers`): the stdout branch must be exactly `sys.stdout.write(generated)`, the file branch exactly
+   `f.write(generated)` under `with open(output, 'w', encoding=...) as f` *)
+Inductive writer := WriteAll | WriterOther.
+Record writers := { w_stdout : writer; w_file : writer }.
+
 (* open(path, 'r', encoding=c).read(): decoding, then universal newlines *)
 Definition read_text (c : codec) (b : list N) : option str :=
   match decode_with c b with Some s => Some (universal_nl s) | None => None end.
@@ -51,34 +58,41 @@ Definition read_text (c : codec) (b : list N) : option str :=
 (* open(path, 'w', encoding=c).write(s)  /  sys.stdout.write(s) with a UTF-8 stdout *)
 Definition write_text (c : codec) (s : str) : option (list N) := encode_with c s.
 
+(* write_c_source(output, generated): OUTPUT '-' (to_stdout, a UTF-8 stdout) or a path *)
+Definition write_out (ws : writers) (cs : codecs) (to_stdout : bool) (s : str) : option (list N) :=
+  if to_stdout
+  then match w_stdout ws with WriteAll => write_text Utf8 s | WriterOther => None end
+  else match w_file ws with WriteAll => write_text (c_output cs) s | WriterOther => None end.
+
 Section Pipelines.
 Variable ffi : Type.
 Variable make_ffi : str -> str -> str -> ffi.      (* module name, cdef text, C source prelude *)
 Variable find_ffi : str -> str -> option ffi.      (* script text, --ffi-var name *)
 Variable emit : ffi -> str.                        (* the text FFI.emit_c_code generates *)
 Variable cs : codecs.                              (* the tool's codecs (Gen.v) *)
+Variable ws : writers.                             (* the tool's output branches (Gen.v) *)
 
 (* FFI().cdef(text); set_source(name, prelude); emit_c_code(filename)   — UTF-8 locale *)
 Definition direct (name cdef csrc : str) : option (list N) := write_text Utf8 (emit (make_ffi name cdef csrc)).
 
 (* cffi-gen-src read-sources NAME CDEF CSRC OUTPUT   (OUTPUT a path or '-': the same bytes) *)
-Definition gen_src_read_sources (name : str) (cdef_file csrc_file : list N) : option (list N) :=
+Definition gen_src_read_sources (to_stdout : bool) (name : str) (cdef_file csrc_file : list N) : option (list N) :=
   match read_text (c_csrc cs) csrc_file with
   | None => None
   | Some csrc =>
     match read_text (c_cdef cs) cdef_file with
     | None => None
-    | Some cdef => write_text (c_output cs) (emit (make_ffi name cdef csrc))
+    | Some cdef => write_out ws cs to_stdout (emit (make_ffi name cdef csrc))
     end
   end.
 
 (* cffi-gen-src exec-python [--ffi-var VAR] SCRIPT OUTPUT *)
-Definition gen_src_exec_python (script_file : list N) (var : str) : option (list N) :=
+Definition gen_src_exec_python (to_stdout : bool) (script_file : list N) (var : str) : option (list N) :=
   match read_text (c_pyfile cs) script_file with
   | None => None
   | Some script => match find_ffi script var with
                    | None => None
-                   | Some f => write_text (c_output cs) (emit f)
+                   | Some f => write_out ws cs to_stdout (emit f)
                    end
   end.
 
